@@ -144,6 +144,10 @@ fn main() {
         let q = cx.gen_query();
         let feats = cx.features.clone();
         let text = render_query(&q);
+        if cost_estimate(g, &q) > 3000.0 {
+            out.count("skipped_cost");
+            continue;
+        }
         let mut shape = shape_of(&q);
         if feats.contains("ill_typed") {
             shape.push_str(" !ill");
